@@ -202,7 +202,53 @@ def run(tier, seed):
         if h.startswith("abort write-panic"):
             rep.violation(f"C02/declared-size/{c['key']}", f"{c['key']}: writing a decoded canonical message aborts: the declared size differs from the bytes written ({h[:140]})",
                           {"container": c["key"], "input": rq[:8000], "implementation": h[:300], "replay_cmd": f"echo '{rq[:8000]}' | {har}"})
+    # ---- compressed messages override all six writers (placeholder header patched after compression): their frames, small and
+    # beyond the 3-byte-size boundary of Wrath server messages, written plain and encrypted, must carry a header that announces
+    # exactly opcode + body and be read back alone and between two other messages
+    import zlib
+    zreq, zmeta = [], []
+    for c in semcorr.build_corpus():
+        toks = c.get("zmsg_tokens") or c.get("ztokens")
+        if toks is None:
+            continue
+        big = "zmsg_tokens" in c and c["kind"] == "smsg"
+        for ml in ((1, 3, 40) + ((4800, 5400, 7000) if big else ())) if tier == "quick" else ((0, 1, 2, 3, 10, 40, 200) + ((4400, 4800, 5000, 5200, 5400, 6000, 7000, 9000) if big else ())):
+            try:
+                body = pyenc.encode(toks, prng, ml, None, maximal=ml > 100)
+            except (pyenc.Unsupported, OverflowError, ValueError):
+                break
+            if "zmsg_tokens" in c:
+                body = len(body).to_bytes(4, "little") + zlib.compress(body, 1)
+            for dr in semcorr.directions(c):
+                lib = semcorr.libname(c)
+                try:
+                    fr = semcorr.frame(lib, dr, c["opcode"], body)
+                except OverflowError:
+                    continue          # does not fit the 2-byte size field of this direction
+                small = semcorr.frame(lib, dr, 0x1DC if dr == "client" else 0x1DD, b"\x07\0\0\0" + (b"\x01\0\0\0" if dr == "client" else b""))   # CMSG_PING / SMSG_PONG
+                zreq.append(f"eseqf {lib} {dr} {prng.bytes(40).hex()} {small.hex()},{fr.hex()},{small.hex()}")
+                zmeta.append((c, lib, dr, len(fr)))
+    zo = run_parallel(har, zreq, jobs=8) if zreq else []
+    n_z = n_z_large = 0
+    for (c, lib, dr, flen), rq, h in zip(zmeta, zreq, zo):
+        if h.startswith("unreadable") or h.startswith("plain-write-p"):
+            continue
+        m = re.match(r"ok hdronly=1 plain=(\d+),(\d+),(\d+) (\d+)@(\d+) (\d+)@(\d+) (\d+)@(\d+) end=(\d+)$", h)
+        okz = False
+        if m:
+            a_, b_, c_ = int(m.group(1)), int(m.group(2)), int(m.group(3))
+            okz = [int(m.group(5)), int(m.group(7)), int(m.group(9)), int(m.group(10))] == [a_, a_ + b_, a_ + b_ + c_, a_ + b_ + c_]
+            if okz and lib == "wrath" and dr == "server":
+                # header form follows the size: 3-byte size field exactly when opcode + body exceed 0x7FFF
+                okz = (b_ - int(m.group(6)) == (5 if int(m.group(6)) + 2 > 0x7FFF else 4))
+        if okz:
+            n_z += 1
+            n_z_large += int(m.group(2)) > 0x8000
+        else:
+            rep.violation(f"C02/{lib}-{dr}/compressed-writer/{c['name']}", f"{c['key']}: a compressed message of about {flen} bytes between two small messages is not framed consistently: '{h[:200]}'",
+                          {"container": c["key"], "input": rq[:200000], "implementation": h[:600], "replay_cmd": f"echo '{rq[:200000]}' | {har}"})
     rep.coverage = {
+        "compressed_message_sequences": n_z, "compressed_frames_above_0x8000": n_z_large,
         "obligations": po["obligations"] + len(CONSTS), "discharged": po["discharged"] + sum(1 for k, v in CONSTS.items() if consts_seen.get(k) == v),
         "checker_cmd": "cd /verif/lean && lake build WowVerif.Thm.C02 && lake env lean WowVerif/Thm/C02.lean",
         "trusted_base": TRUSTED_BASE_COMMON + ["hand transcription of traits/*.rs, util/trait_helpers/*.rs, the header parsing in opcodes.rs and expected.rs (validated by the correspondence)",
